@@ -281,6 +281,123 @@ def unbounded_digit_runs(pattern: str):
     return out
 
 
+
+# ------------------------------------------------------------------------------------------------
+# reference reading of the expression language ("means what arithmetic says"): * binds tighter than + and -,
+# operators of one level associate to the left, parentheses group, literals are non-negative decimal
+# integers / floats, tensors are name(index,...).  Spaces are the only whitespace.
+# ------------------------------------------------------------------------------------------------
+_TOK = re.compile(r"[ ]*(?:(\d+\.\d+(?:[Ee][+-]?\d+)?|\d+[Ee][+-]?\d+)|(\d+)|([A-Za-z][A-Za-z0-9]*)|(.))", re.S)
+
+
+def _tokenize(text):
+    out = []
+    pos = 0
+    text = text.rstrip(" ")
+    while pos < len(text):
+        m = _TOK.match(text, pos)
+        if not m:
+            raise ValueError(text)
+        pos = m.end()
+        if m.group(1):
+            out.append(("float", m.group(1)))
+        elif m.group(2):
+            out.append(("int", m.group(2)))
+        elif m.group(3):
+            out.append(("name", m.group(3)))
+        else:
+            out.append(("sym", m.group(4)))
+    return out
+
+
+def _parse_model(text, assignment):
+    toks = _tokenize(text)
+    p = [0]
+
+    def peek():
+        return toks[p[0]] if p[0] < len(toks) else (None, None)
+
+    def eat(kind=None, val=None):
+        k, v = peek()
+        if k is None or (kind and k != kind) or (val and v != val):
+            raise ValueError(f"unexpected {v!r} in {text!r}")
+        p[0] += 1
+        return v
+
+    def tensor():
+        name = eat("name")
+        eat("sym", "(")
+        idx = []
+        if peek() != ("sym", ")"):
+            idx.append(eat("name"))
+            while peek() == ("sym", ","):
+                eat()
+                idx.append(eat("name"))
+        eat("sym", ")")
+        return ("Tensor", name, tuple(idx))
+
+    def factor():
+        k, v = peek()
+        if k == "sym" and v == "(":
+            eat()
+            e = expression()
+            eat("sym", ")")
+            return e
+        if k == "int":
+            eat()
+            return ("Integer", int(v))
+        if k == "float":
+            eat()
+            return ("Float", float(v))
+        return tensor()
+
+    def term():
+        e = factor()
+        while peek() == ("sym", "*"):
+            eat()
+            e = ("Multiply", e, factor())
+        return e
+
+    def expression():
+        e = term()
+        while peek() in (("sym", "+"), ("sym", "-")):
+            op = eat()
+            e = ("Add" if op == "+" else "Subtract", e, term())
+        return e
+
+    if assignment:
+        t = tensor()
+        eat("sym", "=")
+        e = ("Assignment", t, expression())
+    else:
+        e = expression()
+    if p[0] != len(toks):
+        raise ValueError(f"trailing text in {text!r}")
+    return e
+
+
+def parse_model_expression(text):
+    return _parse_model(text, False)
+
+
+def parse_model_assignment(text):
+    return _parse_model(text, True)
+
+
+EXPRESSION_CORPUS = [
+    "a(i) + b(i) * c(i)", "a(i) * b(i) + c(i)", "a(i) - b(i) - c(i)", "a(i) - (b(i) - c(i))", "a(i) + b(i) - c(i) + d(i)",
+    "a(i) * (b(i) + c(i))", "(a(i) + b(i)) * c(i)", "a(i) * b(i) * c(i)", "a(i) * (b(i) * c(i))", "(a(i))", "((a(i) + 2)) * 3",
+    "a(i)+b(i)", "a(i)  *  b(j)", " a( i , j ) ", "a ()", "a()", "A1(i1,j2)", "2", "007", "2.5", "1e5", "1E-3", "2.5e+10", "0.0", "10 * a(i)",
+    "2 * 3 + 4", "2 + 3 * 4", "1 - 2 - 3", "2 * a(i) - 3.5 * b(i,j) * c(j)",
+    # not in the language
+    "", " ", "a(i) +", "+ a(i)", "- a(i)", "a(i) b(i)", "a(i,)", "a(,i)", "(a(i)", "a(i))", "a(i) * - 2", "a_b(i)", "1a(i)", "a(i) ** b(i)",
+    "a(i) / b(i)", "1.", ".5", "1.e5", "a", "a(i", "a(1)", "a(i)(j)", "2 3", "()", "a(i) + ()", "a(i) = b(i)",
+]
+ASSIGNMENT_CORPUS = [
+    "y(i) = A(i,j) * x(j)", "y() = 2", "y(i)=a(i)", "  y(i)  =  a(i) + 1  ", "y(i,j) = a(i) * b(j) - c(i,j)", "y(i) = (a(i))",
+    "y = 2", "y(i) = ", "= a(i)", "y(i) == a(i)", "y(i) = a(i) = b(i)", "y(i)", "2 = a(i)", "(y(i)) = a(i)", "y(i) + z(i) = a(i)",
+]
+
 INT_SAMPLES = ["0", "7", "007", "00", "010", "1234567890", "9" * 40]
 FLOAT_SAMPLES = ["0.0", "1.5", "01.5", "123.456", "1e5", "1E5", "001e2", "1e+16", "1e-07", "1.5e+300", "2.2250738585072014e-308", "5e-324", "1.7976931348623157e+308"]
 # conversions of the token text that cannot raise on the sample languages above, with the language they need
@@ -759,84 +876,7 @@ def rule_roundtrip_semantic(ctx, ix):
             return ("Tensor", t.attrs["name"], t.attrs["indexes"])
         return (t.tag, t.attrs["value"])
 
-    # ---- model parser from the grammar facts
-    import re as _re
-
-    TOK = _re.compile(r"\s*(?:(\d+\.\d+(?:[Ee][+-]?\d+)?|\d+[Ee][+-]?\d+)|(\d+)|([A-Za-z][A-Za-z0-9]*)|(.))")
-
-    def tokenize(text):
-        out = []
-        pos = 0
-        while pos < len(text):
-            m = TOK.match(text, pos)
-            if not m:
-                raise ValueError(text)
-            pos = m.end()
-            if m.group(1):
-                out.append(("float", m.group(1)))
-            elif m.group(2):
-                out.append(("int", m.group(2)))
-            elif m.group(3):
-                out.append(("name", m.group(3)))
-            elif m.group(4).strip():
-                out.append(("sym", m.group(4)))
-        return out
-
-    def parse_model(text):
-        toks = tokenize(text)
-        p = [0]
-
-        def peek():
-            return toks[p[0]] if p[0] < len(toks) else (None, None)
-
-        def eat(kind=None, val=None):
-            k, v = peek()
-            if (kind and k != kind) or (val and v != val):
-                raise ValueError(f"unexpected {v!r} in {text!r}")
-            p[0] += 1
-            return v
-
-        def factor():
-            k, v = peek()
-            if k == "sym" and v == "(":
-                eat()
-                e = expression()
-                eat("sym", ")")
-                return e
-            if k == "int":
-                eat()
-                return ("Integer", int(v))
-            if k == "float":
-                eat()
-                return ("Float", float(v))
-            name = eat("name")
-            eat("sym", "(")
-            idx = []
-            while peek() != ("sym", ")"):
-                idx.append(eat("name"))
-                if peek() == ("sym", ","):
-                    eat()
-            eat("sym", ")")
-            return ("Tensor", name, tuple(idx))
-
-        def term():
-            e = factor()
-            while peek() == ("sym", "*"):
-                eat()
-                e = ("Multiply", e, factor())
-            return e
-
-        def expression():
-            e = term()
-            while peek() in (("sym", "+"), ("sym", "-")):
-                op = eat()
-                e = ("Add" if op == "+" else "Subtract", e, term())
-            return e
-
-        e = expression()
-        if p[0] != len(toks):
-            raise ValueError(f"trailing text in {text!r}")
-        return e
+    parse_model = parse_model_expression
 
     pool = trees(2)
     base = trees(1)
@@ -850,6 +890,7 @@ def rule_roundtrip_semantic(ctx, ix):
                     pool.append(node(op1, left=base[b_], right=node(op2, left=base[2], right=node(op3, left=x, right=base[1]))))
     bad = {}
     n = 0
+    printed = []
     for t in pool:
         n += 1
         dp = t.attrs["__methods__"].get("deparse")
@@ -858,6 +899,7 @@ def rule_roundtrip_semantic(ctx, ix):
             if kind != "return" or not isinstance(val, str):
                 bad.setdefault(f"deparse not interpretable / not a string: {kind} {val!r}"[:120], shape(t))
                 continue
+            printed.append(val)
             try:
                 back = parse_model(val)
             except ValueError as ex:
@@ -874,6 +916,7 @@ def rule_roundtrip_semantic(ctx, ix):
     order_prop = ix.funcs.get(f"{F_MOD}.Format.order")
     nf = 0
     badf = {}
+    printed_formats = []
     for order in range(0, 4):
         for modes, ordering in S.all_formats(order):
             nf += 1
@@ -885,13 +928,14 @@ def rule_roundtrip_semantic(ctx, ix):
                 if kind != "return" or not isinstance(val, str):
                     badf.setdefault(f"Format.deparse not interpretable: {kind} {val!r}"[:120], (modes, ordering))
                     continue
+                printed_formats.append(val)
                 # model of the format grammar: rep(mode) with natural ordering | rep(mode & integer)
-                m1 = _re.fullmatch(r"[ds]*", val)
-                m2 = _re.fullmatch(r"(?:[ds]\d+)*", val)
+                m1 = re.fullmatch(r"[ds]*", val)
+                m2 = re.fullmatch(r"(?:[ds]\d+)*", val)
                 if m1:
                     back = (tuple(val), tuple(range(len(val))))
                 elif m2:
-                    pairs = _re.findall(r"([ds])(\d+)", val)
+                    pairs = re.findall(r"([ds])(\d+)", val)
                     back = (tuple(p_[0] for p_ in pairs), tuple(int(p_[1]) for p_ in pairs))
                 else:
                     badf.setdefault(f"Format.deparse prints `{val}`, which neither format alternative accepts", (order, ordering))
@@ -903,16 +947,165 @@ def rule_roundtrip_semantic(ctx, ix):
     for why, ex in badf.items():
         ctx.fail("C12.roundtrip-semantics", f"format/_format.py:Format.deparse:{why[:70]}", f"{why}; expected {ex}")
     ctx.ok("C12.roundtrip-semantics", n=max(0, nf - len(badf)))
+    return printed, printed_formats
+
+
+def model_format(text):
+    """Reference reading of a format string: bare mode characters mean the natural ordering; otherwise
+    every mode character is followed by the (decimal) dimension it stores."""
+    if re.fullmatch(r"[ds]*", text):
+        return ("Format", tuple(text), tuple(range(len(text))))
+    if re.fullmatch(r"(?:[ds][0-9]+)*", text):
+        pairs = re.findall(r"([ds])([0-9]+)", text)
+        return ("Format", tuple(p_[0] for p_ in pairs), tuple(int(p_[1]) for p_ in pairs))
+    raise ValueError(text)
+
+
+def rule_grammar_semantics(ctx, ix, printed, printed_formats):
+    """The grammars in the source are interpreted (vf/srules/grammar.py) and must mean what the reference
+    reading means, string by string, on a corpus that contains every text the printers produce in the
+    round-trip rule plus precedence / association / literal / whitespace probes and strings outside the
+    language: same tree, or both reject.  Together with C12.roundtrip-semantics (reference parse of the
+    printer output gives back the tree) this decides parse(deparse(t)) == t for the real grammar without
+    depending on how its nonterminals are named or factored."""
+    import_tensora(ctx.src)
+    from tensora.format import Mode
+
+    from .grammar import Grammar
+    from .symeval import Uninterpretable
+
+    ctx.rule("C12.grammar-semantics", "the interpreted source grammar and the reference reading agree on every corpus string", min_instances=400)
+
+    def safe(f):
+        def g(x):
+            try:
+                return f(x)
+            except (ValueError, TypeError, OverflowError) as ex:
+                from . import symeval as S
+
+                raise S.Raised(type(ex).__name__) from None
+
+        return g
+
+    cons = {
+        "Tensor": lambda name, indexes: ("Tensor", name, tuple(indexes)),
+        "Integer": lambda v: ("Integer", v),
+        "Float": lambda v: ("Float", v),
+        "Add": lambda l, r: ("Add", l, r),
+        "Subtract": lambda l, r: ("Subtract", l, r),
+        "Multiply": lambda l, r: ("Multiply", l, r),
+        "Assignment": lambda t, e: ("Assignment", t, e),
+        "int": safe(int),
+        "float": safe(float),
+    }
+    try:
+        g = Grammar(ix, P_MOD, "TensorExpressionParsers", cons)
+    except Uninterpretable as ex:
+        ctx.instance("C12.grammar-semantics")
+        ctx.fail("C12.grammar-semantics", "expression/_parser.py:TensorExpressionParsers", f"grammar class not interpretable: {ex}")
+        g = None
+    # entry points: what parse_assignment / parse_format really call
+    def entry(func, default):
+        fn = ix.func(func).node
+        for n in ast.walk(fn):
+            if isinstance(n, ast.Call) and isinstance(n.func, ast.Attribute) and n.func.attr == "parse" and isinstance(n.func.value, ast.Attribute):
+                return n.func.value.attr
+        return default
+
+    bad = {}
+    n_ok = 0
+    if g is not None:
+        start_a = entry(f"{P_MOD}.parse_assignment", "assignment")
+        # the nonterminal for a bare expression: the right-hand side of the assignment rule
+        start_e = "expression" if "expression" in g.rules else None
+        corpus = [(start_e, x, parse_model_expression) for x in dict.fromkeys(list(printed) + EXPRESSION_CORPUS)] if start_e else []
+        corpus += [(start_a, "y(i) = " + x, parse_model_assignment) for x in dict.fromkeys(list(printed)[:400] + EXPRESSION_CORPUS)]
+        corpus += [(start_a, x, parse_model_assignment) for x in ASSIGNMENT_CORPUS]
+        for start, text, model in corpus:
+            ctx.instance("C12.grammar-semantics")
+            try:
+                want = ("ok", model(text))
+            except ValueError:
+                want = ("fail",)
+            try:
+                got = g.parse(start, text)
+            except Uninterpretable as ex:
+                bad.setdefault(f"grammar not interpretable: {ex}"[:100], text)
+                continue
+            except RecursionError:
+                bad.setdefault("grammar interpretation does not terminate", text)
+                continue
+            if got[0] == "ok" and want[0] == "ok" and got[1] == want[1]:
+                n_ok += 1
+            elif got[0] == "fail" and want[0] == "fail":
+                n_ok += 1
+            elif got[0] == "raise":
+                bad.setdefault(f"a converter raises {got[1]} inside the parser", text)
+            elif got[0] == "ok" and want[0] == "ok":
+                bad.setdefault("parses to a different tree than arithmetic reading gives", f"`{text}` -> {got[1]} (expected {want[1]})")
+            elif got[0] == "ok":
+                bad.setdefault("accepts text outside the language", f"`{text}` -> {got[1]}")
+            else:
+                bad.setdefault("rejects text of the language", f"`{text}` (fails at {got[1]})")
+        for why, ex in bad.items():
+            ctx.fail("C12.grammar-semantics", f"expression/_parser.py:TensorExpressionParsers:{why}", f"{why}; e.g. {ex}")
+        ctx.ok("C12.grammar-semantics", n=n_ok)
+    # formats
+    mode_name = {f"Mode.{m.name}": m.character for m in Mode}
+    fcons = {
+        "Format": lambda modes, ordering: ("Format", tuple(modes), tuple(ordering)),
+        "int": safe(int),
+    }
+    try:
+        fg = Grammar(ix, FP_MOD, "FormatParsers", fcons)
+    except Uninterpretable as ex:
+        ctx.instance("C12.grammar-semantics")
+        ctx.fail("C12.grammar-semantics", "format/_parser.py:FormatParsers", f"grammar class not interpretable: {ex}")
+        return
+    start_f = entry(f"{FP_MOD}.parse_format", "format")
+    start_n = entry(f"{FP_MOD}.parse_named_format", "named_format")
+    fcorpus = list(dict.fromkeys(list(printed_formats) + ["", "d", "s", "ds", "sd", "d0", "d1", "d0s0", "d1s0", "s1d0", "d2s0d1", "d10s2", "d01", "ds1", "d1s", "x", "D", "d 0", " d", "d0 ", "d-1", "d0,s1", "dsd2"]))
+    badf = {}
+    nf_ok = 0
+
+    def norm(v):
+        if isinstance(v, tuple) and v and v[0] == "Format":
+            return ("Format", tuple(mode_name.get(m[1], m[1]) if isinstance(m, tuple) and m and m[0] == "const" else m for m in v[1]), tuple(v[2]))
+        return v
+
+    for text in fcorpus:
+        for start, full, wrap in ((start_f, text, lambda x: x), (start_n, "A:" + text, lambda x: ("A", x))):
+            ctx.instance("C12.grammar-semantics")
+            try:
+                want = ("ok", wrap(model_format(text)))
+            except ValueError:
+                want = ("fail",)
+            try:
+                got = fg.parse(start, full)
+            except Uninterpretable as ex:
+                badf.setdefault(f"grammar not interpretable: {ex}"[:100], full)
+                continue
+            if got[0] == "ok":
+                v = got[1]
+                v = (v[0], norm(v[1])) if start == start_n and isinstance(v, tuple) and len(v) == 2 else norm(v)
+                got = ("ok", v)
+            if got[0] == want[0] and (got[0] == "fail" or got[1] == want[1]):
+                nf_ok += 1
+            elif got[0] == "raise":
+                badf.setdefault(f"a converter raises {got[1]} inside the parser", full)
+            else:
+                badf.setdefault("format text read differently from the reference reading", f"`{full}` -> {got} (expected {want})")
+    for why, ex in badf.items():
+        ctx.fail("C12.grammar-semantics", f"format/_parser.py:FormatParsers:{why}", f"{why}; e.g. {ex}")
+    ctx.ok("C12.grammar-semantics", n=nf_ok)
 
 
 def run(ctx):
     ix = SourceIndex(ctx.src)
-    rule_grammar(ctx, ix)
-    rule_printer_parser(ctx, ix)
-    rule_format_printer_parser(ctx, ix)
     rule_literals(ctx, ix)
     rule_parser_escape(ctx, ix)
     rule_rejections(ctx, ix)
     rule_rejections_semantic(ctx, ix)
-    rule_roundtrip_semantic(ctx, ix)
+    printed, printed_formats = rule_roundtrip_semantic(ctx, ix)
+    rule_grammar_semantics(ctx, ix, printed, printed_formats)
     return ix
